@@ -962,6 +962,10 @@ func (a *typedArrayObject) iterateStringKeys() iterNextFunc {
 
 func (a *typedArrayObject) exportToArrayOrSlice(dst reflect.Value, typ reflect.Type, ctx *objectExportCtx) error {
 	if typ == typeBytes {
+		if a.viewedArrayBuf.detached {
+			dst.Set(reflect.ValueOf([]byte(nil)))
+			return nil
+		}
 		dst.Set(reflect.ValueOf(a.viewedArrayBuf.data[a.offset*a.elemSize : (a.offset+a.length)*a.elemSize]))
 		return nil
 	}
@@ -969,6 +973,10 @@ func (a *typedArrayObject) exportToArrayOrSlice(dst reflect.Value, typ reflect.T
 }
 
 func (a *typedArrayObject) export(_ *objectExportCtx) interface{} {
+	if a.viewedArrayBuf.detached {
+		// a detached typed array is empty; unsafe.Slice(nil, n) with n > 0 would panic
+		return a.typedArray.export(0, 0)
+	}
 	return a.typedArray.export(a.offset, a.length)
 }
 
@@ -978,6 +986,10 @@ func (a *typedArrayObject) exportType() reflect.Type {
 
 func (o *dataViewObject) exportToArrayOrSlice(dst reflect.Value, typ reflect.Type, ctx *objectExportCtx) error {
 	if typ == typeBytes {
+		if o.viewedArrayBuf.detached {
+			dst.Set(reflect.ValueOf([]byte(nil)))
+			return nil
+		}
 		dst.Set(reflect.ValueOf(o.viewedArrayBuf.data[o.byteOffset : o.byteOffset+o.byteLen]))
 		return nil
 	}
